@@ -34,6 +34,22 @@ CHECKS = {
               "TLA+ piece-level dash/hand-trim model + TLC enumeration, metamorphic replay", "DESIGN.md 6/C13"),
     "C14": _c("C13 corpus x pad positions x pad contents x lengths straddling 4096 bytes and up to 300 KB, three writers.",
               "TLA+ symbolic padding model + TLC enumeration, metamorphic replay with Go-side pad expansion", "DESIGN.md 6/C14"),
+    "C01": dict(level="model_checking",
+                text="EngineLife.tla models what a sequence of public calls does to the logical state of engines and makes rendering an "
+                     "uninterpreted function of that state (key). TLC checks RenderPure / FailedOpsPure / NoStaleRender and enumerates every "
+                     "operation history up to a bound; each history is replayed on real engines (histories back-to-back in worker processes) and "
+                     "every render is compared with the pristine result of its key, computed by a fresh engine in a fresh OS process.",
+                ref="DESIGN.md 6/C01", note=_NOTE + " The deviation config (RenderReleasesRoot) must produce TLC's counterexample (vacuity guard).",
+                technique="TLA+ lifecycle state machine + TLC history enumeration, replay against real engines with a fresh-process oracle"),
+    "C15": dict(level="model_checking",
+                text="CacheLoaders.tla is the rule set of cache, auto-reload and loader order; TLC checks the property's six sentences as action "
+                     "properties, enumerates every history of 4 operations plus random walks, and the harness compares the engine's observable "
+                     "state (served version, per-loader Load counters, cached names) after every operation. Random Go-driven histories of 80 "
+                     "operations are recorded and validated against the same state machine by the TLC trace spec Trace_C15.",
+                ref="DESIGN.md 6/C15", note=_NOTE, technique="TLA+ state machine, TLC exhaustive + simulation, state-by-state replay, TLC trace validation of recorded histories"),
+    "C19": _c("Every short string / list / typed slice / map x the filter chains of the property's equations; slice index rules exhaustively; "
+              "TLC checks the equations (Laws) on the reference definitions.",
+              "TLA+ reference filter definitions + Laws checked by TLC, spec-to-code replay through a value-dump filter", "DESIGN.md 6/C19"),
     "C17": _c("Corpus with a spy at every callback position; every single-fault placement, loader faults, unresolved names; 6 render variants.",
               "TLA+ Exec with fault schedule (Surfaces) + TLC fault enumeration, spec-to-code replay", "DESIGN.md 6/C17"),
 }
